@@ -11,8 +11,7 @@ AUDIT = {
     '<io::fasta::Reader<B> as io::fasta::FastaRead>::read|unwrap|unwrap(Option::map(Iterator>::next(x0),read::{closure#0}{}))<std::string::String>':
         'str::splitn(2, ..) always yields at least one item (possibly the empty string), so the first next() is Some',
     '<io::fastq::Reader<B> as io::fastq::FastqRead>::read|overflow-add|x0,1':
-        'lines_read counts successful read_line calls of one record; it cannot reach usize::MAX (each line occupies '
-        'at least one byte of an in-memory String)',
+        'lines_read counts successful read_line calls of one record; it cannot reach usize::MAX (each line occupies at least one byte of an in-memory String)',
 }
 
 
@@ -58,14 +57,12 @@ def po2(facts, rep):
     rep.floor(rule, 'reader entry points', len(rs), 10)
     reach = facts.reachable_bodies(rs)
     total = 0
-    for k in sorted(reach):
-        b = facts.bodies[k]
-        if not (b.path.startswith(('io::fast', '<io::fast'))):
-            continue
-        rep.analysed_body(b)
-        ia = eng_po.Intervals(b, facts).run()
+    from .po_known import KNOWN
+    bodies = [facts.bodies[k] for k in sorted(reach) if facts.bodies[k].path.startswith(('io::fast', '<io::fast'))]
+    for b0, b, ia, obs in eng_po.scan(facts, bodies, KNOWN):
+        rep.analysed_body(b0)
         swg = starts_with_guards(b)
-        for o in eng_po.obligations(b, ia):
+        for o in obs:
             total += 1
             key = '%s|%s|%s' % (b.path, o['kind'], o['ops'])
             if o['discharged']:
